@@ -2,6 +2,7 @@ import AndaVerif.Proofs.Bm25History
 import AndaVerif.Proofs.Bm25Flush
 import AndaVerif.Proofs.Bm25Score
 import AndaVerif.Proofs.Bm25Conc
+import AndaVerif.Proofs.Bm25Spec
 /-
 C11 — Full-text index retrieves exactly the matching documents, ranked stably.
 
@@ -130,7 +131,7 @@ replay, a re-insert and a purge -/
 example : removesCover Ghost.init
     [.insert 1 [(0, 1), (1, 2)], .insert 2 [(1, 1)], .remove 1 [(1, 1), (0, 3), (9, 1)], .remove 1 [(0, 1)],
      .insert 1 [(2, 1)], .purge [2]] := by
-  simp [removesCover, gstep, Ghost.init]
+  simp [removesCover, removeCovers, gstep, Ghost.init]
 
 example : termIds (run Index.empty
     [.insert 1 [(0, 1), (1, 2)], .insert 2 [(1, 1)], .remove 1 [(1, 1), (0, 3), (9, 1)], .remove 1 [(0, 1)],
@@ -329,6 +330,92 @@ theorem score_sum_nonneg (contributions : List ℝ) (h : ∀ x ∈ contributions
 
 example : Bm25Score.sanitizeK1 .nan = 1.2 ∧ Bm25Score.sanitizeB .negInf = 0.75 := by
   constructor <;> norm_num [Bm25Score.sanitizeK1, Bm25Score.sanitizeB, Gen.Bm25Order.defaultK1Milli, Gen.Bm25Order.defaultBMilli]
+
+/-! ### `Bm25Spec` — the interface for other properties (C02)
+
+The index against the plain map "live id ↦ token set of its current text". -/
+
+/-- **`bm25_refines_spec`.** For every history in which the caller keeps the contract of `remove`
+(`removesCover`: the text of the matching insert, or a superset; `C02Bridge.bm25_remove_contract` shows the
+collection always does): a term query on the index returns exactly what the query returns on the
+specification map, which holds the live ids in both (`len` = number of its entries), and the index
+never lists an id twice. No hypothesis on inserts, re-inserts, purges or removes of absent ids. -/
+theorem bm25_refines_spec (ops : List Op) (hc : removesCover Ghost.init ops) :
+    (∀ toks i, i ∈ termIds (run Index.empty ops) toks ↔ i ∈ (Bm25Spec.empty.run ops).search toks)
+    ∧ (∀ i, (run Index.empty ops).live i = hasKey (Bm25Spec.empty.run ops).docs i)
+    ∧ ((run Index.empty ops).docTokens.map (·.1)).Nodup := by
+  have hrel : SpecRel (Bm25Spec.empty.run ops) (grun Ghost.init ops) :=
+    SpecRel.run (fun _ => rfl) ops
+  have hn := specKeys_nodup_run ops Bm25Spec.empty (by simp [Bm25Spec.empty])
+  refine ⟨fun toks i => ?_, fun i => ?_, (counters_consistent ops).2⟩
+  · rw [term_exact_partial ops hc toks i, mem_specSearch hn toks i, hrel i]
+  · have h := (Rep.init.run ops).live i
+    rw [h]; unfold hasKey; rw [hrel i]
+
+/-- without the contract: the specification still bounds the answer from below and the extra documents
+are exactly those with a left-over entry (finding 1), so a caller that never re-uses an id after a
+non-original remove gets the specification's answer too (`term_exact_of_no_visible_stale`) -/
+theorem bm25_spec_lower_bound (ops : List Op) (toks : List Nat) (i : Nat)
+    (h : i ∈ (Bm25Spec.empty.run ops).search toks) : i ∈ termIds (run Index.empty ops) toks := by
+  have hrel : SpecRel (Bm25Spec.empty.run ops) (grun Ghost.init ops) := SpecRel.run (fun _ => rfl) ops
+  have hn := specKeys_nodup_run ops Bm25Spec.empty (by simp [Bm25Spec.empty])
+  obtain ⟨T, hT, t, ht, htT⟩ := (mem_specSearch hn toks i).1 h
+  rw [hrel i] at hT
+  have := term_general ops toks i
+  simp only [] at this
+  rw [this]
+  refine ⟨by rw [hT]; rfl, t, ht, Or.inl ?_⟩
+  unfold Ghost.has; rw [hT]; simpa using htT
+
+example : (Bm25Spec.empty.run [.insert 1 [(0, 1), (1, 2)], .insert 2 [(1, 1)], .remove 1 [(0, 1), (1, 1)],
+    .insert 1 [(2, 1)], .purge [7]]).search [1, 2] = [2, 1] := by decide
+
+/-! ### scores in exact arithmetic
+
+`Proofs/Bm25Score.docScoreQ` is the score `score_term` accumulates, over ℚ, from the model's `scoreInputs`
+(the driver prints them and the harness re-evaluates the f32 formula on them: bit-exact for one and two
+query tokens). `idf` enters as a non-negative weight per token (`idf_nonneg` over ℝ). What f32 adds:
+rounding of every operation and — for three or more query tokens — a sum whose order follows a freshly
+seeded hash map, so repeated calls may differ in the last bit (measured); the order of the *results* is
+then decided on the bit patterns, for which `comparator_total_order` holds unconditionally. -/
+
+open Bm25Score in
+/-- **score ≥ 0, bounded, and independent of the order in which query tokens are visited** — for every
+index state, query, document, non-negative idf weights and every parameter pair after `sanitized`. -/
+theorem score_exact_arithmetic (s : Index) (toks : List Nat) (w : Nat → ℚ) (hw : ∀ t, 0 ≤ w t)
+    (k1 b : ℚ) (hk : 0 ≤ k1) (hb0 : 0 ≤ b) (hb1 : b ≤ 1) (i : Nat) :
+    0 ≤ docScoreQ w k1 b (scoreInputs s toks) i
+    ∧ ∀ l, l.Perm (scoreInputs s toks).2.2 →
+        docScoreQ w k1 b ((scoreInputs s toks).1, (scoreInputs s toks).2.1, l) i
+          = docScoreQ w k1 b (scoreInputs s toks) i :=
+  ⟨docScoreQ_nonneg hw hk hb0 hb1 _ i, fun l hl => docScoreQ_perm w k1 b _ _ hl i⟩
+
+/-- ranking over exact scores: descending score, ties by ascending id, is a strict total order on
+entries with different ids (the ℚ counterpart of `comparator_total_order`) -/
+theorem rank_exact_total_order :
+    let lt := fun (a b : Nat × ℚ) => b.2 < a.2 ∨ (a.2 = b.2 ∧ a.1 < b.1)
+    (∀ a, ¬ lt a a) ∧ (∀ a b c, lt a b → lt b c → lt a c) ∧ (∀ a b, a.1 ≠ b.1 → lt a b ∨ lt b a) := by
+  intro lt
+  refine ⟨fun a h => ?_, fun a b c h1 h2 => ?_, fun a b hne => ?_⟩
+  · rcases h with h | h
+    · exact lt_irrefl _ h
+    · exact Nat.lt_irrefl _ h.2
+  · rcases h1 with h1 | h1 <;> rcases h2 with h2 | h2
+    · exact Or.inl (lt_trans h2 h1)
+    · exact Or.inl (h2.1 ▸ h1)
+    · exact Or.inl (h1.1 ▸ h2)
+    · exact Or.inr ⟨h1.1.trans h2.1, Nat.lt_trans h1.2 h2.2⟩
+  · rcases lt_trichotomy a.2 b.2 with h | h | h
+    · exact Or.inr (Or.inl h)
+    · rcases Nat.lt_or_gt_of_ne hne with h' | h'
+      · exact Or.inl (Or.inr ⟨h, h'⟩)
+      · exact Or.inr (Or.inr ⟨h.symm, h'⟩)
+    · exact Or.inl (Or.inl h)
+
+example : Bm25Score.docScoreQ (fun _ => 1) 1 0
+    (scoreInputs (run Index.empty [.insert 1 [(0, 1), (1, 2)], .insert 2 [(1, 1)]]) [1, 0]) 1 = 1 + 4 / 3 := by
+  norm_num [Bm25Score.docScoreQ, Bm25Score.tokenScoreQ, Bm25Score.tfcQ, Bm25Score.avgQ, scoreInputs, tokenInfo,
+    validIds, dedup, run, step, insert, Index.empty, addAll, addEntry, sumSnd, get?, hasKey, Index.live, Index.len]
 
 end Bm25
 
